@@ -7,7 +7,7 @@ git -C /repo worktree add --detach -q "$W" HEAD || exit 2
 if ! git -C "$W" apply "$PATCH"; then echo "PATCH DOES NOT APPLY"; git -C /repo worktree remove --force "$W"; exit 2; fi
 cd /verif
 for c in "$@"; do
-  out=$(VERIF_REPO=$W ./check "$c" --tier "$TIER" 2>&1); rc=$?
+  out=$(VERIF_REPO=$W timeout ${CHECK_TIMEOUT:-1500} ./check "$c" --tier "$TIER" 2>&1); rc=$?
   n=$(printf '%s\n' "$out" | grep -c '^VIOLATION')
   echo "== $c rc=$rc violations=$n"
   printf '%s\n' "$out" | grep -A1 '^VIOLATION' | head -${SHOW:-6} | cut -c1-300
